@@ -212,7 +212,7 @@ def run_units(units, nproc=None, timeout=10, retry=60, want_both=False, only_pro
     nproc = nproc or int(os.environ.get("PYVC_NPROC", "16"))
     seen = set()
     units = [u for u in units if not (u.name in seen or seen.add(u.name))]
-    if len(units) == 1 or nproc == 1:
+    if len(units) <= 1 or nproc == 1:
         reports = [run_unit_cached(u) for u in units]
     else:
         source_hash()
